@@ -177,15 +177,11 @@ func inboundCases(n int, skew bool) []inCase {
 	return out
 }
 
-// inVerdictKey classifies an inbound mismatch.
+// inFailure classifies an inbound mismatch (the caller has made sure the status is 202 or 401).
 func inFailure(windows []win, r inResult, insts []instant) *failure {
 	c := r.Case
 	accepted := r.Status == http.StatusAccepted
-	rejected := r.Status == http.StatusUnauthorized
 	ctx := fmt.Sprintf("set %s route %s signer %s signed-ts %s clock %s status %d", pattern(windows), inRoutes[c.Route].Route, c.signerName(), insts[c.Ts].Label, insts[c.Clock].Label, r.Status)
-	if !accepted && !rejected {
-		return &failure{"in:unexpected-status", "neither 202 nor 401: " + ctx}
-	}
 	if accepted == r.Want {
 		return nil
 	}
